@@ -35,6 +35,16 @@ var keyNames = []string{"n", "a", "b", "c", "d", "e", "f", "g", "h", "i", "j", "
 var keyNameOf = map[string]string{}
 
 func init() {
+	// keys of every length 1..300 for the format sweeps (C13): "k<len>"
+	for n := 1; n <= 300; n++ {
+		b := make([]byte, n)
+		rand.New(rand.NewSource(int64(n) * 31)).Read(b)
+		b[0] = 0x01
+		if n > 1 {
+			copy(b[1:], fmt.Sprintf("k%d/", n))
+		}
+		keyBytes[fmt.Sprintf("k%d", n)] = b
+	}
 	for n, b := range keyBytes {
 		keyNameOf[string(b)] = n
 	}
